@@ -17,6 +17,7 @@ they differ only below the `PushTruncateContainer` interface (`push`, `pop`,
 correspondence run on both containers).
 -/
 import Woodpile.Proofs.SlidingDeque
+import Woodpile.Proofs.ZDeque
 
 namespace Woodpile.Props.C15
 open Woodpile.SlidingDeque
@@ -151,5 +152,58 @@ example :
       [.pushBack 1, .pushBack 2, .pushBack 3, .pushBack 4, .advance 2, .setFront 9, .popBack, .front] =
     ([.unit, .unit, .unit, .unit, .count 2, .wrote true, .item (some 4), .item (some 9)], [9]) := by
   decide
+
+end Woodpile.Props.C15
+
+/-! ### Zero-sized items: the length-only model replayed by the driver
+
+For `SlidingDeque<Vec<()>>` the correspondence run uses container lengths up to
+`usize::MAX`, so the driver cannot materialise the list model.  It replays the ops on
+`ZDeque = (consumed, container length)` (`Woodpile/Model/ZDeque.lean`), which the next two
+theorems tie to the list model: `ZDeque` *is* the list model at item type `Unit`, seen
+through `length` (and a list of `Unit`s is its length), so everything above transfers. -/
+namespace Woodpile.Props.C15
+open Woodpile.SlidingDeque
+
+/-- **The length-only model is the image of the list model under `length`**, operation by
+operation: from any state `s` of the list model at item type `Unit` (no invariant assumed),
+`zstep` on `(s.consumed, s.container.length)` panics iff `step` does, returns the same value
+(items reduced to "was there one") and reaches the image of the state `step` reaches. -/
+theorem zdeque_step_is_length_image (s : SDeque Unit) (op : ZOp) :
+    zstep s.abs op = (step s op.toOp).map (fun p => (p.1.toZ, p.2.abs)) :=
+  zstep_abs s op
+
+/-- The same for operation sequences, from `From<Vec<()>>` of any length. -/
+theorem zdeque_run_is_length_image (n : Nat) (ops : List ZOp) :
+    zrun (ZDeque.ofLen n) ops =
+      (run (SDeque.ofList (List.replicate n ())) (ops.map ZOp.toOp)).map
+        (fun p => (p.1.map Ret.toZ, p.2.abs)) := by
+  have h := zrun_abs (SDeque.ofList (List.replicate n ())) ops
+  rwa [SDeque.abs_ofList, List.length_replicate] at h
+
+/-- **Transfer**: what `run_refines_list` says about the list model holds for the
+length-only model the driver replays.  From a vector of `n` units, for every operation
+sequence: no panic, the returned values are the reference deque's, the logical length is
+the reference's, and the consumed prefix is at most half of the container's length. -/
+theorem zdeque_run_spec (n : Nat) (ops : List ZOp) :
+    ∃ z', zrun (ZDeque.ofLen n) ops =
+        some ((runRef (List.replicate n ()) (ops.map ZOp.toOp)).1.map Ret.toZ, z') ∧
+      z'.len - z'.consumed = (runRef (List.replicate n ()) (ops.map ZOp.toOp)).2.length ∧
+      z'.consumed ≤ z'.len / 2 := by
+  obtain ⟨s', h1, h2, h3, _⟩ := run_refines_list (List.replicate n ()) (ops.map ZOp.toOp)
+  refine ⟨s'.abs, ?_, ?_, h3⟩
+  · rw [zdeque_run_is_length_image, h1]; rfl
+  · rw [← h2, SDeque.view_length]; rfl
+
+-- non-vacuity: 2^63 of 2^64 - 1 units consumed in one go slides (the C15-2 scenario) ...
+example :
+    zrun (ZDeque.ofLen 18446744073709551615) [.advance 9223372036854775808, .popFront, .pushBack] =
+      some ([.count 9223372036854775808, .has true, .unit], ⟨1, 9223372036854775808⟩) := by decide
+-- ... one less does not (the bound is tight) ...
+example :
+    zrun (ZDeque.ofLen 18446744073709551615) [.advance 9223372036854775807] =
+      some ([.count 9223372036854775807], ⟨9223372036854775807, 18446744073709551615⟩) := by decide
+-- ... and the length-only model does reject states that violate the bound.
+example : zstep ⟨2, 3⟩ .popFront = none := by decide
 
 end Woodpile.Props.C15
